@@ -274,10 +274,13 @@ class LighthouseInitialEstimator:
         accept_radius = 0.8
 
         for pos_list in position_lists:
+            # The four permutations of one sample must not vote for the same bucket
+            used = set()
             for pos in pos_list:
                 for i, ref in enumerate(bucket_ref_positions):
-                    if np.linalg.norm(pos - ref) < accept_radius:
+                    if i not in used and np.linalg.norm(pos - ref) < accept_radius:
                         buckets[i].append(pos)
+                        used.add(i)
                         break
 
     @classmethod
